@@ -31,15 +31,15 @@ func init() {
 var errInjected = errors.New("injected reader failure")
 
 type schedReader struct {
-	data   []byte
-	ends   []int
-	frags  []int
-	errAt  int
-	cur    int
-	phase  int // 0: fragment, 1: complete the line
-	fi     int
-	Calls  int
-	mu     sync.Mutex
+	data  []byte
+	ends  []int
+	frags []int
+	errAt int
+	cur   int
+	phase int // 0: fragment, 1: complete the line
+	fi    int
+	Calls int
+	mu    sync.Mutex
 }
 
 func (r *schedReader) nextLF(from int) int {
